@@ -75,15 +75,49 @@ func sameHashes(a, b []vt.H) bool {
 func MonC01() *Mon {
 	first := map[uint32]*vt.Block{}
 	who := map[uint32]int{}
+	tainted := map[uint32]bool{} // some honest acceptance at this height counted an invalid commit that arrived before the proposal (D1)
+	early := map[*Node]map[vt.H]bool{}
+	note := func(n *Node, p Payload) {
+		if p.T != dbft.CommitType || n.D.Validators == nil || p.Ht < n.D.BlockIndex {
+			return
+		}
+		m := early[n]
+		if m == nil {
+			m = map[vt.H]bool{}
+			early[n] = m
+		}
+		if _, ok := m[p.Hash()]; !ok {
+			m[p.Hash()] = !(p.Ht == n.D.BlockIndex && p.V == n.D.ViewNumber && n.D.RequestSentOrReceived())
+		}
+	}
 	return &Mon{Name: "C01",
+		BeforeCall: func(n *Node, c *Call) {
+			if c.Kind == CReceive {
+				note(n, c.P)
+				if rm, ok := c.P.Body.(*vt.RecoveryMessage); ok {
+					for _, e := range rm.Embedded {
+						note(n, e)
+					}
+				}
+			}
+		},
 		ProcessBlock: func(n *Node, b *vt.Block, err error) {
 			if err != nil || n.Faulty {
 				return
 			}
 			w := n.W
+			for j, cp := range n.D.CommitPayloads {
+				if cp != nil && cp.ViewNumber() == n.D.ViewNumber && b.Verify(n.D.Validators[j], cp.GetCommit().Signature()) != nil && early[n][cp.Hash()] {
+					tainted[b.Idx] = true
+				}
+			}
 			if f, ok := first[b.Idx]; ok {
 				if f.Hash() != b.Hash() {
-					w.Fail("C01", fmt.Sprintf("height %d: node %d accepted block %s but node %d accepted %s", b.Idx, n.ID, b.Hash(), who[b.Idx], f.Hash()), "fork")
+					key := "fork"
+					if tainted[b.Idx] {
+						key = "D1-fork-unverified-early-commit"
+					}
+					w.Fail("C01", fmt.Sprintf("height %d: node %d accepted block %s but node %d accepted %s", b.Idx, n.ID, b.Hash(), who[b.Idx], f.Hash()), key)
 				} else if who[b.Idx] != n.ID {
 					w.Stat("c01_agree2")
 				}
